@@ -124,11 +124,11 @@ def forbidden_tokens():
     return hits
 
 
-def audit_axioms(theorems):
+def audit_axioms(theorems, imports=("CollectionsC",)):
     """#print axioms for every theorem; returns {name: [axioms]} (None when the name is unknown)"""
     if not theorems:
         return {}
-    src = "import CollectionsC\n" + "\n".join(f"#print axioms {t}" for t in theorems) + "\n"
+    src = "".join(f"import {m}\n" for m in imports) + "\n".join(f"#print axioms {t}" for t in theorems) + "\n"
     with tempfile.NamedTemporaryFile("w", suffix=".lean", dir=LEAN, delete=False) as f:
         f.write(src)
         name = f.name
